@@ -278,7 +278,7 @@ pub fn run(ctx: &mut Ctx) {
         }
     });
 
-    let cases = ctx.tier.pick(80_000u64, 1_500_000u64);
+    let cases = ctx.tier.pick(600_000u64, 6_000_000u64);
     ctx.pbt("c14-random", cases, 500, |t, st| {
         let lines = gen_lines(t);
         st.eval();
